@@ -102,11 +102,11 @@ SameAtom(f, r, g) == /\ g.id = r.id /\ g.name = r.name /\ g.resname = r.resname 
                      /\ g.resid = r.resid /\ g.icode = (IF f.fmt = "gro" THEN "-" ELSE r.icode)
                      /\ g.el = ElementOf(f, r) /\ g.x = r.x /\ g.y = r.y /\ g.z = r.z
 Sq(x) == x * x
-JudgeRead(f, g) ==
+\* R = Read(f), computed once by the caller
+JudgeReadR(f, g, R) ==
   IF ~WellFormedFile(f) THEN "malformed-input"
   ELSE
-  LET R    == Read(f)
-      all  == F(UNION {{g.mols[m][k].rec : k \in DOMAIN g.mols[m]} : m \in DOMAIN g.mols})
+  LET all  == F(UNION {{g.mols[m][k].rec : k \in DOMAIN g.mols[m]} : m \in DOMAIN g.mols})
       n    == LET RECURSIVE Sum(_) Sum(m) == IF m = 0 THEN 0 ELSE Len(g.mols[m]) + Sum(m - 1) IN Sum(Len(g.mols))
       GM   == F({F({g.mols[m][k].rec : k \in DOMAIN g.mols[m]}) : m \in DOMAIN g.mols})
       GE   == F({Norm(g.edges[e].a, g.edges[e].b) : e \in DOMAIN g.edges})
@@ -133,4 +133,10 @@ JudgeRead(f, g) ==
           THEN "read-conect-distance-wrong"
      ELSE IF g.nalt # R.nalt THEN "read-altloc-warnings-wrong"
      ELSE "ok"
+JudgeRead(f, g) == JudgeReadR(f, g, Read(f))
+\* for the evidence: what this file exercises
+ReadInfo(f, R) == [nrecs |-> Len(f.recs), natomrecs |-> Cardinality(Recs(f, "atom")), nkept |-> Cardinality(R.kept),
+                   nsegs |-> Cardinality({R.seg[k] : k \in R.kept}), nlinks |-> Cardinality(R.links),
+                   ncross |-> Cardinality({p \in R.links : R.seg[p[1]] # R.seg[p[2]]}),
+                   nmols |-> Cardinality(R.mols), nalt |-> R.nalt, nmodels |-> Cardinality(Recs(f, "model"))]
 =============================================================================
